@@ -127,16 +127,31 @@ fn play_stereo() {
     all_splits(true);
 }
 
-/// C15, VTX header + strings block: every byte string of the enumerated lengths (truncated
-/// headers, missing string terminators, zero player frequency, huge size fields) gives Ok or
-/// Err - no panic, no endless loop. BOUNDED: <= 24 bytes, lengths enumerated; the LH5 payload is
-/// excluded (declared frame size 0 or the loader fails before decoding): delharc internals and
-/// String::from_utf8_lossy (stubbed: the strings are not part of any property) are out of reach.
+/// C15, VTX header + strings block: every 16-byte header (symbolic: magic, stereo byte, loop frame,
+/// chip and player frequency, year, declared size) in front of each of the enumerated strings
+/// blocks (well-formed, truncated inside a string, missing, no terminator at all, empty strings,
+/// one terminator short) and every truncation of the header itself gives Ok or Err - no panic,
+/// no endless loop, never a track with player frequency 0.
+/// BOUNDED: strings blocks enumerated (concrete bytes; their contents only steer the scan loop);
+/// the LH5 payload is excluded (declared frame size 0 or the loader fails before decoding):
+/// delharc internals and String::from_utf8_lossy (stubbed: the strings are not part of any
+/// property) are out of reach.
 fn lossy_stub(_v: &[u8]) -> std::borrow::Cow<'_, str> {
     std::borrow::Cow::Borrowed("")
 }
 
-fn vtx_header_case(data: &[u8; 24], len: usize) -> bool {
+fn vtx_header_case(hdr: &[u8; 16], tail: &[u8], len: usize) -> bool {
+    let mut data = [0u8; 32];
+    let mut i = 0;
+    while i < 16 {
+        data[i] = hdr[i];
+        i += 1;
+    }
+    let mut j = 0;
+    while j < tail.len() {
+        data[16 + j] = tail[j];
+        j += 1;
+    }
     let r = Vtx::load(std::io::Cursor::new(&data[..len]));
     if let Ok(v) = &r {
         kani::assert(v.player_frequency != 0, "C15/C20: a loaded track never has player frequency 0");
@@ -149,22 +164,29 @@ fn vtx_header_case(data: &[u8; 24], len: usize) -> bool {
 }
 
 #[kani::proof]
-#[kani::unwind(30)]
+#[kani::unwind(260)]
 #[kani::stub(std::string::String::from_utf8_lossy, lossy_stub)]
 fn vtx_load_header() {
-    let data: [u8; 24] = kani::any();
+    let hdr: [u8; 16] = kani::any();
     // either the declared decompressed size is 0 (nothing to decode) or the header is rejected
-    let size = (data[12] as u32) | ((data[13] as u32) << 8) | ((data[14] as u32) << 16) | ((data[15] as u32) << 24);
+    let size = (hdr[12] as u32) | ((hdr[13] as u32) << 8) | ((hdr[14] as u32) << 16) | ((hdr[15] as u32) << 24);
     kani::assume(size == 0 || size > 64 * 1024 * 1024 || size % 14 != 0);
-    let lens: [usize; 9] = [0, 1, 2, 3, 15, 16, 20, 21, 24];
-    let mut i = 0;
     let mut any_ok = false;
-    while i < 9 {
-        if vtx_header_case(&data, lens[i]) {
-            any_ok = true;
-        }
+    // truncated headers
+    let lens: [usize; 5] = [0, 1, 2, 3, 15];
+    let mut i = 0;
+    while i < 5 {
+        any_ok |= vtx_header_case(&hdr, b"", lens[i]);
         i += 1;
     }
+    // strings blocks
+    any_ok |= vtx_header_case(&hdr, b"t\0a\0f\0k\0c\0", 26);
+    any_ok |= vtx_header_case(&hdr, b"t\0a\0", 20);
+    any_ok |= vtx_header_case(&hdr, b"t\0au", 20);
+    any_ok |= vtx_header_case(&hdr, b"", 16);
+    any_ok |= vtx_header_case(&hdr, b"abcdefgh", 24);
+    any_ok |= vtx_header_case(&hdr, b"\0\0\0\0\0", 21);
+    any_ok |= vtx_header_case(&hdr, b"\0\0\0\0", 20);
     kani::cover!(any_ok);
     kani::cover!(!any_ok);
 }
